@@ -24,13 +24,14 @@ MIX = VOpq(None, "mix")
 
 
 class Joiner:
-    def __init__(self, ip, A, B, mark, key, keep, widen, descends=True, roots=None):
+    def __init__(self, ip, A, B, mark, key, keep, widen, descends=True, roots=None, thresholds=None):
         self.ip, self.A, self.B, self.mark, self.key = ip, A, B, mark, key
         self.keep, self.widen = keep, widen
         self.descends = descends      # B was computed from a copy of A (loop body from the loop invariant)
         self.roots = roots            # restrict the memory join to these roots (None = all of A)
         self.shared = set()
         self.why = []
+        self.thresholds = thresholds or []
         self.out = A.copy()
         self.sigma = {}
         self.conflict = set()
@@ -80,9 +81,11 @@ class Joiner:
         if self.widen and old is not None:
             ol, oh = A.bounds(old)
             if lo is None or (ol is not None and lo < ol):
-                lo = tlo
+                cand = [t for t in self.thresholds if lo is not None and tlo <= t <= lo]
+                lo = max(cand) if cand else tlo
             if hi is None or (oh is not None and hi > oh):
-                hi = thi
+                cand = [t for t in self.thresholds if hi is not None and hi <= t <= thi]
+                hi = min(cand) if cand else thi
         if lo is None or lo < tlo:
             lo = tlo
         if hi is None or hi > thi:
@@ -95,8 +98,14 @@ class Joiner:
         self.changed = True
         return Lin.sym(s)
 
+    def note_shared(self, v):
+        from .typestate import value_syms
+        self.shared |= value_syms(None, [v])
+
     def jval(self, a, b):
         if a is b:
+            if a is not None:
+                self.note_shared(a)
             return a
         if a is None or b is None:
             return None
@@ -107,6 +116,7 @@ class Joiner:
             self.changed = True
             return MIX
         if a == b:
+            self.note_shared(a)
             return a
         if ta is VInt:
             if a.w != b.w or a.sg != b.sg:
@@ -221,13 +231,15 @@ class Joiner:
                     continue
                 known = self.descends or all((s in self.sigma or self.common(s)) for s in f.syms())
                 ok = known and B.prove_ge0(g)
+                if DEBUG and not ok:
+                    print("  DROP", f, "known", known, "shared", sorted(self.shared)[:10], "prove", B.prove_ge0(g), "Brng", {x: B.bounds(x) for x in g.syms()})
             else:
                 ok = all(self.common(s) for s in f.syms()) and B.prove_ge0(f)
             if ok:
                 facts.append(f)
             else:
                 if self.keep:
-                    self.why.append("fact dropped %r" % (f,))
+                    self.why.append("fact dropped %r (as %r; sigma=%r; Bfacts=%r)" % (f, f.subst(self.sigma) if self.sigma else f, self.sigma, B.facts[:8]))
                 self.changed = self.changed or self.keep
         if not self.keep:
             for f in B.facts:
@@ -244,7 +256,7 @@ class Joiner:
         A, B, out = self.A, self.B, self.out
         for (s, la, lb, old) in self.news:
             anchors = []
-            for x in la.syms() + lb.syms():
+            for x in la.syms() + lb.syms() + list(self.ip.cparams.values()):
                 if self.common(x) and x not in anchors:
                     anchors.append(x)
             for r in anchors[:6]:
@@ -252,10 +264,20 @@ class Joiner:
                 da = A.interval(la - rl)
                 db = B.interval(lb - rl)
                 lo, hi = _hull(da, db)
-                if lo is not None:
+                if lo is not None and (lo == hi or abs(lo) <= 4096):
                     out.facts.append(Lin.sym(s) - rl - lo)
-                if hi is not None:
+                else:
+                    for c in (1, 0):
+                        if A.prove_ge0(la - rl - c) and B.prove_ge0(lb - rl - c):
+                            out.facts.append(Lin.sym(s) - rl - c)
+                            break
+                if hi is not None and (lo == hi or abs(hi) <= 4096):
                     out.facts.append(rl - Lin.sym(s) + hi)
+                else:
+                    for c in (-1, 0):
+                        if A.prove_ge0(rl - la + c) and B.prove_ge0(rl - lb + c):
+                            out.facts.append(rl - Lin.sym(s) + c)
+                            break
             if old is not None:
                 # facts about the symbol that is being replaced carry over if they hold for the new arrival
                 for f in A.facts:
@@ -268,7 +290,7 @@ class Joiner:
                             if nf not in out.facts:
                                 out.facts.append(nf)
         # pairwise relations between new symbols (sum / difference constant or bounded)
-        n = self.news[:8]
+        n = self.news[:6]
         for i in range(len(n)):
             for j in range(i + 1, len(n)):
                 (s1, a1, b1, _), (s2, a2, b2, _) = n[i], n[j]
@@ -277,10 +299,28 @@ class Joiner:
                     eb = b1 + b2.scale(sign)
                     lo, hi = _hull(A.interval(ea), B.interval(eb))
                     e = Lin.sym(s1) + Lin.sym(s2, sign)
-                    if lo is not None and lo > -(1 << 62):
+                    if lo is not None and lo == hi:
                         out.facts.append(e - lo)
-                    if hi is not None and hi < (1 << 62):
                         out.facts.append(Lin.const(hi) - e)
+                    elif sign == -1:
+                        if lo is not None and abs(lo) <= 64:
+                            out.facts.append(e - lo)
+                        if hi is not None and abs(hi) <= 64:
+                            out.facts.append(Lin.const(hi) - e)
+        self.gc()
+
+    def gc(self):
+        """drop facts that only talk about symbols no value refers to any more (always sound)"""
+        from .typestate import value_syms
+        out = self.out
+        live = value_syms(out, [v for v in out.mem.values() if v is not None])
+        live |= set(self.ip.cparams.values())
+        keep = []
+        for f in out.facts:
+            dead = [x for x in f.syms() if x not in live]
+            if len(dead) <= 1 and len(dead) < len(f.t):
+                keep.append(f)
+        out.facts = keep
 
 
 def join_pair(ip, a_st, a_val, b_st, b_val, mark):
@@ -289,11 +329,11 @@ def join_pair(ip, a_st, a_val, b_st, b_val, mark):
     return j.out, v
 
 
-def join_into(ip, inv, arr, mark, key, widen=False, descends=True, roots=None):
+def join_into(ip, inv, arr, mark, key, widen=False, descends=True, roots=None, thresholds=None):
     """inv := inv JOIN arr, reusing inv's join symbols where arr stays within them.
     mark: symbol-count watermark or predicate telling which symbols mean the same in both states.
     returns (state, changed)"""
-    j = Joiner(ip, inv, arr, mark, key, keep=True, widen=widen, descends=descends, roots=roots)
+    j = Joiner(ip, inv, arr, mark, key, keep=True, widen=widen, descends=descends, roots=roots, thresholds=thresholds)
     j.run()
     if DEBUG and j.changed:
         print("JOIN", key, j.why[:6])
